@@ -407,7 +407,7 @@ class Canon:
                     mapping[p] = defaults[p]
                 else:
                     return None
-        if not all(_simple(v) for v in mapping.values()):
+        if not all(_simple(v) or _pure_literal(v) for v in mapping.values()):
             return None
         # a parameter that the helper assigns to must be bound to a plain name
         stored = {n.id for n in _own_nodes(fn) if isinstance(n, ast.Name) and isinstance(n.ctx, (ast.Store, ast.Del))}
